@@ -32,6 +32,7 @@ CONSTANTS
   VerifierStep = "first"
   RestoreMayFail = FALSE
   LockByHand = FALSE
+  CatchRefusals = FALSE
   ForeignReuse = FALSE
   AllocAt = "hint"
   UserCalls = TRUE
